@@ -21,7 +21,7 @@ pub const STR_POOL: &[&str] = &[
     "", "a", "b", "ab", "abc", "aab", "hello", "x y", "A", "é", "aé😀b", "\u{2028}", "\u{ffff}",
     "q\"q", "b\\s", "sl/ash", "tab\tx", "nl\nx", "cr\rx", "\u{1}", "\u{7f}", "\u{1f}", "e", "E",
     "1", "12", "-3", "1.5", "null", "true", "[1]", "{}", "error:", "日本", "ß", "a,b", "a=b",
-    "0123456789012345678901234567890é2", "𝒳",
+    "0123456789012345678901234567890é2", "𝒳", "a<b", "x&y<z>", "<&>",
 ];
 
 const KEY_POOL: &[&str] = &["a", "b", "c", "k", "key", "é", "x y", "", "id", "n"];
@@ -758,6 +758,14 @@ pub fn gen_pipe(rng: &mut Rng, wish: &PipeWish) -> Pipe {
             if rng.chance(1, 6) {
                 opts.push(vec!["--string-prefix=<".into()]);
                 opts.push(vec!["--string-postfix=>".into()]);
+            }
+            if rng.chance(1, 4) {
+                // escape sequences, some of which contain a character another one escapes
+                let mut pool = vec!["<&lt;", "&&amp;", ">&gt;", "a[a]", "\t\\t", "e3", "\"\\\"", ";\\;"];
+                rng.shuffle(&mut pool);
+                for e in pool.iter().take(rng.range(1, 3)) {
+                    opts.push(vec![format!("--escape-sequance={e}")]);
+                }
             }
         }
     }
